@@ -89,6 +89,12 @@ def scalar_roundtrips(rep, ex, nat):
                     if out != "OK %016x" % val:
                         verdict = "counterexample"
                         rep.violation("unwrap<%s>(wrap<%s>(0x%x)) gives %s" % (tname, tname, val, out), dict(kind="c18", args=["scalar", tname, hx(val)], expect="OK %016x" % val))
+                    elif ex.fp_conversions:
+                        # the path converts a double to an integer; out of range that is undefined behaviour whose native
+                        # result z3 does not predict: reported separately, not as a violation and not as a harness error
+                        rep.extra.setdefault("ub_notes", []).append("unwrap<%s>(wrap<%s>(0x%x)): model differs from the native run (%s) on a path with fptosi/fptoui" % (tname, tname, val, out))
+                        if verdict == "confirmed":
+                            verdict = "inconclusive(ub)"
                     else:
                         rep.harness_error("IR counterexample for %s value 0x%x does not reproduce natively (%s)" % (tname, val, out)); verdict = "error"
         if nret == 0 and verdict == "confirmed":
